@@ -20,6 +20,7 @@ for line in open(os.path.join(V, 'properties.jsonl')):
 ids = ids or sorted(props)
 
 FOCUS = {
+    '10': None,
     '9': ('the checker that will judge your change has already met every idea in the list below and varies far more than they name: '
           'dtypes and storage types of every argument, objects used-then-edited-then-used-again, process-wide state, distorted and '
           'oblong-pixel WCS, letter case and white space of every text form, pathlib vs string paths, values beyond 2^52, and it '
@@ -63,6 +64,8 @@ FOCUS = {
           'elements, or an interaction between two public methods (e.g. what one method leaves behind for another), and slips at a '
           'code site nobody has touched yet (look at the less travelled methods and branches named in the anchors)'),
 }
+
+FOCUS['10'] = FOCUS['9']
 
 
 def prop_text(d):
